@@ -356,6 +356,11 @@ func (m *Manager) Poll() error {
 	// Transition to polling
 	m.state.Store(StatePolling)
 	m.lastPollTime = time.Now()
+	if m.cfg.PersistState {
+		if err := m.persistState(); err != nil {
+			m.logger.Debug("failed to persist sleep state", logging.KeyError, err)
+		}
+	}
 	m.stateMu.Unlock()
 
 	m.logger.Debug("starting poll")
